@@ -1498,6 +1498,16 @@ def join_concrete(base, sfx):
     return base + sfx
 
 
+def suffix_or_eviction_search(vs):
+    found = suffix_search(vs)
+    if found is None:
+        import obl_phonetic
+        f2 = obl_phonetic.memo_eviction_search()
+        if f2 is not None:
+            found = (f2[0], f2[1], f2[2], "suffix forms depend on how many words the context composed before")
+    return found
+
+
 def suffix_search(vs):
     """Native confirmation of a missing suffix form: a few bases x every key of suffix.json, typed in one context so that the base is
     memoised; every direct candidate of the base must appear joined."""
@@ -1643,6 +1653,8 @@ def obl_suffix(check, conv_table, thorough=False, budget_s=None):
     if thorough:
         shapes += base_shapes([("", "")], [3], conv_table, **dict(kw, distinct=False, fixed={"include_english": False, "ansi": False, "smart_quote": False}))
     # the base typed first (its list computed by the code from the oracles: dictionary word, bundled / user auto-correct entry), then the suffix
+    # a context that has composed any number of other words before this one (memo of any size): the forms are as complete
+    shapes += base_shapes([("", "")], [3], conv_table, **dict(kw, memo_extra=True, fixed={"include_english": False, "ansi": False, "smart_quote": False}))
     for ac, uac, dm in (((True, False, 1), (False, True, 1), (True, True, 0)) if thorough else ((False, False, 1), (True, True, 0))):
         shapes += base_shapes([("", "")], [3] + ([4] if thorough and dm else []), conv_table, **dict(kw, mode="suffix_pair", pair_base=2, autocorrect=ac, user_autocorrect=uac, dict_max=dm,
                                                                                                    fixed={"include_english": False, "ansi": False, "smart_quote": False}))
@@ -1650,7 +1662,7 @@ def obl_suffix(check, conv_table, thorough=False, budget_s=None):
                                            memo="every proper prefix holds one candidate (dictionary word or auto-correct entry) of 1 symbolic Bengali-block code point",
                                            suffix_value="1 symbolic Bengali-block code point", wrappers=["W", "\"W\""])
     run_suggest_obligation(check, "assembly_suffix", shapes, ["cover:suffix_join"], budget_s=budget_s,
-                           confirmers={"suffix_forms_complete": suffix_search, "memo_entry_holds_direct_candidates_only": stacked_suffix_search,
+                           confirmers={"suffix_forms_complete": suffix_or_eviction_search, "memo_entry_holds_direct_candidates_only": stacked_suffix_search,
                                        "memo_entry_is_keyed_by_the_word": warm_search, "dictionary_candidates_carry_their_distance": suffix_rank_search,
                                        "candidates_of_the_base_come_back_joined": suffix_search, "candidates_are_justified": unjustified_search})
 
